@@ -164,6 +164,23 @@ func TestCheck(t *testing.T) {
 			}
 		}
 	}
+	// Commit frames repeated to fill the sector (psow=0 with synchronous=FULL): several valid commit frames of one
+	// transaction under one hold of the write lock; the release captures all of it, and the next transaction is not
+	// held up by what was left over.
+	for _, ps := range []int{512, 4096} {
+		for _, pad := range []int{1, 3} {
+			padded := func(frames []uint32, newSize uint32) prog.Op {
+				return prog.Op{Kind: "wtx", W: &pager.WTx{Frames: frames, NewSize: newSize, Outcome: "commit", Pad: pad, Sync: true}}
+			}
+			for _, ops := range [][]prog.Op{
+				{padded([]uint32{2}, 0), wtx([]uint32{3}, 0, 0, "commit"), wtx([]uint32{1, 2}, 0, 0, "commit")},
+				{padded([]uint32{1, 4}, 4), padded([]uint32{2}, 0), {Kind: "ckpt", Mode: "RESTART"}, wtx([]uint32{3}, 0, 0, "commit"), {Kind: "restart"}},
+				{padded([]uint32{1}, 2), padded([]uint32{1, 3}, 3), {Kind: "recover"}, wtx([]uint32{2}, 0, 0, "commit")},
+			} {
+				cases = append(cases, prog.Case{PageSize: ps, Start: 3, StartWAL: true, Ops: ops})
+			}
+		}
+	}
 	// Other connections trying to get in while a transaction is being captured (see prog.Case.Intrude).
 	for _, ps := range []int{512, 4096} {
 		for _, pre := range [][]prog.Op{{}, {wtx([]uint32{1, 2}, 0, 0, "commit"), {Kind: "ckpt", Mode: "PASSIVE"}}, {wtx([]uint32{1, 2, 3}, 0, 1, "commit"), {Kind: "ckpt", Mode: "RESTART"}}} {
